@@ -39,6 +39,7 @@ fn table(id: &str) -> Option<(RunFn, CheckFn)> {
         "C15" => Some((props::c15::run, props::c15::check_case)),
         "C19" => Some((props::c19::run, props::c19::check_case)),
         "C20" => Some((props::c20::run, props::c20::check_case)),
+        "C16" => Some((props::c16::run, props::c16::check_case)),
         "C17" => Some((props::c17::run, props::c17::check_case)),
         "C18" => Some((props::c18::run, props::c18::check_case)),
         _ => None,
